@@ -49,7 +49,9 @@ def table(job):
                       # ... or with a name the programs only use for a lambda / nested-def parameter, an 'except ... as' target, a loop variable
                       "row", "err", "q", "_k",
                       # ... or a name bound by an import statement / a def inside the function body
-                      "h1", "_inner0", "_inner1"):
+                      "h1", "_inner0", "_inner1",
+                      # ... or the parameter of a method
+                      "self"):
                 open(os.path.join(d, n + ".py"), "w").write("IMPORTED_BY_ACCIDENT = True\n")
             sys.path.insert(0, d)
         w = World(scratch)
